@@ -35,6 +35,49 @@ func txCallbacks(w *load.World) []txCallback {
 						if mc, ok := call.Call.Args[0].(*ssa.MakeClosure); ok {
 							out = append(out, txCallback{mc.Fn.(*ssa.Function), call, isW})
 						}
+						// the bodies handed to the runner by its callers are the real callbacks
+						h := call.Parent()
+						for _, g := range w.Fns {
+							for _, gb := range g.Blocks {
+								for _, gi := range gb.Instrs {
+									ci, ok := gi.(ssa.CallInstruction)
+									if !ok || ci.Common().StaticCallee() != h {
+										continue
+									}
+									siteWrite := false
+									var bodies []*ssa.Function
+									for _, a := range ci.Common().Args {
+										mc, ok := a.(*ssa.MakeClosure)
+										if !ok {
+											continue
+										}
+										fn, _ := mc.Fn.(*ssa.Function)
+										if fn == nil {
+											continue
+										}
+										if strings.HasSuffix(fn.String(), "DiskStore).Write$bound") {
+											siteWrite = true
+											continue
+										}
+										if len(fn.Params) >= 1 && ssax.TypeName(fn.Params[0].Type()) == "diskstore.BucketManager" {
+											bodies = append(bodies, fn)
+											continue
+										}
+										// a literal that runs db.Write itself
+										for _, fb := range fn.Blocks {
+											for _, fi := range fb.Instrs {
+												if fc, ok := fi.(*ssa.Call); ok && fc.Call.IsInvoke() && ssax.TypeName(fc.Call.Value.Type()) == "diskstore.DiskStore" && fc.Call.Method.Name() == "Write" {
+													siteWrite = true
+												}
+											}
+										}
+									}
+									for _, bfn := range bodies {
+										out = append(out, txCallback{bfn, call, siteWrite})
+									}
+								}
+							}
+						}
 						continue
 					}
 				}
@@ -1007,6 +1050,15 @@ func Join(w *load.World, c *core.Collector) {
 					input = p
 				}
 			}
+			for _, fv := range anon.FreeVars {
+				t := fv.Type()
+				if pt, ok := t.Underlying().(*types.Pointer); ok {
+					t = pt.Elem()
+				}
+				if _, ok := t.Underlying().(*types.Chan); ok && input == nil {
+					input = fv // the per-iteration loop variable, captured
+				}
+			}
 			if input == nil {
 				continue
 			}
@@ -1575,7 +1627,10 @@ func errActedUpon(v ssa.Value) (bool, string) {
 			case *ssa.DebugRef:
 			case *ssa.BinOp:
 				if ssax.IsNilConst(u.X) || ssax.IsNilConst(u.Y) {
-					return true, ""
+					if nilTestActs(x, u) {
+						return true, ""
+					}
+					why = "the error is tested for nil, but on the branch where it is not nil the function goes on to report success without handing the error (or one made from it) to anybody"
 				}
 			case *ssa.Return, *ssa.Send:
 				return true, ""
@@ -1593,6 +1648,38 @@ func errActedUpon(v ssa.Value) (bool, string) {
 				}
 				cell, isCell := u.Addr.(*ssa.Alloc)
 				if !isCell {
+					// the argument list of a variadic call: acted upon only if that call's result is
+					// (wrapping with fmt.Errorf and dropping the wrapper is still a drop)
+					if ia, ok := u.Addr.(*ssa.IndexAddr); ok {
+						if arr, ok := ia.X.(*ssa.Alloc); ok && arr.Comment == "varargs" {
+							wrapOnly, anyUse := true, false
+							for _, ar := range *arr.Referrers() {
+								sl, ok := ar.(*ssa.Slice)
+								if !ok {
+									continue
+								}
+								for _, sr := range *sl.Referrers() {
+									call, ok := sr.(*ssa.Call)
+									if !ok {
+										wrapOnly = false
+										continue
+									}
+									anyUse = true
+									g := call.Call.StaticCallee()
+									if g == nil || !(g.String() == "fmt.Errorf" || strings.HasPrefix(g.String(), "errors.")) {
+										wrapOnly = false
+										continue
+									}
+									if ok2, _ := handled(call, depth+1); ok2 {
+										return true, ""
+									}
+								}
+							}
+							if anyUse && wrapOnly {
+								continue
+							}
+						}
+					}
 					return true, "" // stored into a field / element: somebody else's business
 				}
 				if ok, w := cellReadBeforeOverwrite(u, cell); ok {
@@ -1773,11 +1860,25 @@ func Errs(w *load.World, c *core.Collector) {
 			if g == nil || g.String() != "(*go.etcd.io/bbolt.DB).Update" {
 				continue
 			}
-			mc, ok := call.Call.Args[1].(*ssa.MakeClosure)
-			if !ok {
+			var lit *ssa.Function
+			switch x := call.Call.Args[1].(type) {
+			case *ssa.MakeClosure:
+				lit, _ = x.Fn.(*ssa.Function)
+			case *ssa.Call:
+				// an adapter that builds the transaction function around the callback
+				if h := x.Call.StaticCallee(); h != nil && ssax.InModule(h) {
+					for _, hb := range h.Blocks {
+						if r, ok := hb.Instrs[len(hb.Instrs)-1].(*ssa.Return); ok && len(r.Results) == 1 {
+							if hm, ok := r.Results[0].(*ssa.MakeClosure); ok {
+								lit, _ = hm.Fn.(*ssa.Function)
+							}
+						}
+					}
+				}
+			}
+			if lit == nil {
 				continue
 			}
-			lit := mc.Fn.(*ssa.Function)
 			allRet := true
 			for _, lb := range lit.Blocks {
 				for _, li := range lb.Instrs {
@@ -1858,10 +1959,183 @@ func txRunnerCall(w *load.World, call *ssa.Call) (isWrite, ok bool) {
 					isWrite = true
 				case strings.HasSuffix(fn.String(), "DiskStore).Read$bound"):
 				default:
-					return false, false
+					// a literal that runs db.Write / db.Read with the callback it is given (and, say, logs)
+					kind := ""
+					for _, fb := range fn.Blocks {
+						for _, fi := range fb.Instrs {
+							fc, ok := fi.(*ssa.Call)
+							if !ok || !fc.Call.IsInvoke() || ssax.TypeName(fc.Call.Value.Type()) != "diskstore.DiskStore" || len(fc.Call.Args) != 1 {
+								continue
+							}
+							if len(fn.Params) == 1 && peelToParam(fc.Call.Args[0]) == ssa.Value(fn.Params[0]) {
+								kind = fc.Call.Method.Name()
+							}
+						}
+					}
+					switch kind {
+					case "Write":
+						isWrite = true
+					case "Read":
+					default:
+						return false, false
+					}
 				}
 			}
 		}
 	}
 	return isWrite, sites > 0
+}
+
+// nilTestActs: the nil test of error value x leads somewhere: on the branch where
+// x is not nil the function does not simply carry on to a return that reports
+// success (every error result the constant nil) without having used x, or an
+// error wrapped around it, in any consequential way.
+func nilTestActs(x ssa.Value, test *ssa.BinOp) bool {
+	f := test.Parent()
+	var ifs []*ssa.If
+	if test.Referrers() != nil {
+		for _, r := range *test.Referrers() {
+			if ifi, ok := r.(*ssa.If); ok {
+				ifs = append(ifs, ifi)
+			} else if _, isDbg := r.(*ssa.DebugRef); !isDbg {
+				return true // the comparison is used as a value (a flag handed on)
+			}
+		}
+	}
+	if len(ifs) == 0 {
+		return true
+	}
+	// values derived from x: wrappers around it
+	derived := map[ssa.Value]bool{x: true}
+	for changed := true; changed; {
+		changed = false
+		for v := range derived {
+			if v.Referrers() == nil {
+				continue
+			}
+			for _, r := range *v.Referrers() {
+				switch y := r.(type) {
+				case *ssa.Call:
+					if g := y.Call.StaticCallee(); g != nil {
+						n := g.String()
+						if (n == "fmt.Errorf" || strings.HasPrefix(n, "errors.")) && !derived[y] {
+							derived[y] = true
+							changed = true
+						}
+					}
+				case *ssa.MakeInterface, *ssa.ChangeInterface, *ssa.Phi, *ssa.Slice:
+					if !derived[y.(ssa.Value)] {
+						derived[y.(ssa.Value)] = true
+						changed = true
+					}
+				case *ssa.Store:
+					// into a variadic argument list (fmt.Errorf("...%w", err)): the slice carries it
+					if ia, ok := y.Addr.(*ssa.IndexAddr); ok {
+						if al, ok := ia.X.(*ssa.Alloc); ok && !derived[al] {
+							derived[al] = true
+							changed = true
+						}
+					}
+				}
+			}
+		}
+	}
+	consequential := func(in ssa.Instruction) bool {
+		for _, op := range in.Operands(nil) {
+			if *op == nil || !derived[*op] {
+				continue
+			}
+			switch y := in.(type) {
+			case *ssa.Return, *ssa.Send, *ssa.Panic, *ssa.MapUpdate, *ssa.Go, *ssa.Defer:
+				return true
+			case *ssa.Call:
+				if g := y.Call.StaticCallee(); g != nil {
+					n := g.String()
+					if n == "fmt.Errorf" || strings.HasPrefix(n, "errors.") {
+						continue // wrapping alone is not acting
+					}
+				}
+				return true
+			case *ssa.Store:
+				if _, isLocal := y.Addr.(*ssa.Alloc); !isLocal {
+					if ia, ok := y.Addr.(*ssa.IndexAddr); ok {
+						if _, isArr := ia.X.(*ssa.Alloc); isArr {
+							continue // the variadic argument list of a wrapper
+						}
+					}
+					return true
+				}
+				// a local variable: acted upon if it is read later (returned, tested, passed on)
+				if cell, ok := y.Addr.(*ssa.Alloc); ok {
+					if okc, _ := cellReadBeforeOverwrite(y, cell); okc {
+						return true
+					}
+				}
+			}
+		}
+		return false
+	}
+	for _, ifi := range ifs {
+		b := ifi.Block()
+		nonNil := 0
+		if test.Op == token.EQL {
+			nonNil = 1
+		}
+		// walk from the non-nil successor: a path to a success return without a consequential use?
+		seen := map[*ssa.BasicBlock]bool{}
+		var drops func(bb *ssa.BasicBlock) bool
+		drops = func(bb *ssa.BasicBlock) bool {
+			if seen[bb] {
+				return false
+			}
+			seen[bb] = true
+			for _, in := range bb.Instrs {
+				if consequential(in) {
+					return false
+				}
+				if ret, ok := in.(*ssa.Return); ok {
+					hasErr, allNil := false, true
+					for i := range ret.Results {
+						if isErrorType(ret.Results[i].Type()) {
+							hasErr = true
+							rv := ssax.ReturnOperand(ret, i)
+							if !ssax.IsNilConst(rv) && !knownNilAt(rv, bb) && rv != x {
+								allNil = false
+							}
+							if derived[rv] {
+								allNil = false
+							}
+						}
+					}
+					return hasErr && allNil
+				}
+			}
+			for _, sc := range bb.Succs {
+				if drops(sc) {
+					return true
+				}
+			}
+			return false
+		}
+		if !drops(b.Succs[nonNil]) {
+			return true
+		}
+	}
+	_ = f
+	return false
+}
+
+// knownNilAt: block b is only reached over the "is nil" edge of a nil test of v (another error
+// that was checked earlier and found nil: returning it reports success).
+func knownNilAt(v ssa.Value, b *ssa.BasicBlock) bool {
+	if v.Parent() == nil {
+		return false
+	}
+	_, isNil := ssax.NilTests(v.Parent(), v)
+	for _, e := range isNil {
+		if ssax.OnlyViaEdge(e.From, e.Succ, b) {
+			return true
+		}
+	}
+	return false
 }
